@@ -1,5 +1,5 @@
 """C11 -- every modifier changes only its own component."""
-from .common import run_model, run_progs, run_value_machine
+from .common import run_model, run_progs, run_value_machine, run_harvest
 
 FINISH = dict(rule="R1 MC_Ports (authority accessors of Level I); R3 random programs over the authority grid x all modifiers x "
                    "hostile arguments on both back ends; TLC evaluates C11.frame.<modifier> on (receiver, argument, result)")
@@ -13,3 +13,4 @@ def run(out, sc, tier, seed):
     n = 12000 if tier == "quick" else 300000
     run_progs(out, sc, "C11", {"gen": "progs", "n": n, "seed": seed, "surrogate_p": 0.02, "fields": FIELDS,
                                "build_p": 0.15, "depths": [1, 2, 2, 3]}, "progs")
+    run_harvest(out, sc, "C11")
